@@ -3,6 +3,12 @@ C10 — property theorems: bounds lemmas on the index-arithmetic models of `Mode
 (helper lemmas live in `Proofs/C10*.lean`).
 -/
 import Mahotas.Proofs.C10Odometer
+import Mahotas.Proofs.C10Interp
+import Mahotas.Proofs.C10IWavelet
+import Mahotas.Proofs.C10Graham
+import Mahotas.Proofs.C10Thin
+import Mahotas.Proofs.C10Cw
+import Mahotas.Proofs.C10Line
 open Mahotas Mahotas.C10
 
 /-! ## general index arithmetic -/
@@ -389,3 +395,190 @@ example : (hmRun [4, 5] [2, 4] true).1.length = 52 ∧ allOk (hmRun [4, 5] [2, 4
 /-! non-vacuity (B7, texture) -/
 example : (plusMinusAccesses 3 6 3).length = 36 ∧ allOk (plusMinusAccesses 3 6 3) = true ∧
     allOk (plusMinusAccesses 3 4 3) = false ∧ allOk (coocAccesses 4 4 3 3) = true := by decide
+
+/-! ## B8 — `zoom_shift`, `spline_filter1d`, wavelets, `integral`, Graham scan (round 2) -/
+
+/-- **B8, zoom_shift.** For every rank, every array shape with at least one element per axis, every spline
+order (0..5 and beyond), every border mode and every per-axis coordinate the border rule can produce —
+in fact for ARBITRARY integer `start`s, one per axis — every index `idxs[fi]`, `fi < (order+1)^rank`, that
+`zoom_shift` forms for an output position addresses an element of the array:
+(i) with arbitrary integer element strides the index equals `Σ stride_r·q_r` for a position `q` inside the
+array, where `q_r = start_r + ff_r` on an axis without edge offsets and the mirror-folded sample
+(`s2 = 2·len-2` folding, `len ≤ 1 → 0`) on an axis with them — this covers both branches of the code, the
+`on_edge` sum of `edge_offsets`/`ff[r]·stride(r)` plus `oo`, and `oo + foffsets[fi]`, where `foffsets`
+and `fcoordinates` are produced by the transliterated odometer (`off += stride(r)` / `off -= stride(r)·order`);
+(ii) for the C-contiguous array the entry point insists on (`PyArray_ISCARRAY`), `0 ≤ idx < size`;
+(iii) the per-axis `start`s computed from a coordinate list of the right length have the right length, and
+the base coordinate the border rule leaves (`cc` after `fix_offset`) is in `[0, len)` — so the `int(...)`
+conversions act on small numbers;
+(iv) the edge folding is the `mirror` rule of `fix_offset`. -/
+theorem C10_zoom_shift_in_bounds (shape : List Nat) (order : Nat) (starts : List Int)
+    (hpos : ∀ d ∈ shape, 0 < d) (hst : starts.length = shape.length) :
+    (∀ (strides : List Int), strides.length = shape.length →
+      ∀ idx ∈ zsAccesses shape strides order starts,
+        ∃ q, inside shape q = true ∧ idx = dot strides q) ∧
+    (∀ idx ∈ zsAccesses shape (cStrides shape) order starts, 0 ≤ idx ∧ idx < (shapeSize shape : Int)) ∧
+    (∀ (m : Mode) (coord st : List Int), coord.length = shape.length →
+      zsStarts m order shape coord = some st → st.length = shape.length) ∧
+    (∀ (m : Mode) (len c b : Int), 0 < len → zsBase m len c = some b → 0 ≤ b ∧ b < len) ∧
+    (∀ len idx : Int, 0 < len → fixOffset .mirror idx len = some (zsFold len idx) ∧
+      0 ≤ zsFold len idx ∧ zsFold len idx < len) := by
+  refine ⟨fun strides hs => zsAccesses_address shape strides order starts hpos hs hst, ?_,
+    fun m coord st hl h => zsStarts_length m order shape coord st hl h,
+    fun m len c b h hb => zsBase_range m len c b h hb,
+    fun len idx h => ⟨zsFold_eq_mirror len idx h, zsFold_range len idx h⟩⟩
+  intro idx hidx
+  obtain ⟨q, hq, rfl⟩ :=
+    zsAccesses_address shape (cStrides shape) order starts hpos (cStrides_length shape) hst idx hidx
+  rw [dot_cStrides]
+  exact ravelZ_range shape q hq
+
+/-- **B8, zoom_shift, the per-axis tables.** The filter coordinates `ff[r] = fcoordinates[r + fi·rank]` produced by
+the odometer have one entry per axis and stay in `[0, order]` for every `fi` (any number of steps, any strides):
+so `splvals[r][kk][ff[r]]` and `edge_offsets[r][kk][ff[r]]` (vectors of `order+1` entries) are read in range, and
+the running `off` stored in `foffsets[fi]` is `Σ stride(r)·ff[r]`. -/
+theorem C10_zoom_shift_tables_in_bounds (order : Nat) (strides : List Int) (fi : Nat) :
+    (zsOdo order strides fi).1.length = strides.length ∧
+    (∀ f ∈ (zsOdo order strides fi).1, 0 ≤ f ∧ f < (order : Int) + 1) ∧
+    (zsOdo order strides fi).2 = dot strides (zsOdo order strides fi).1 := by
+  obtain ⟨h1, h2, h3⟩ := zsOdo_spec order (by omega) strides fi
+  exact ⟨h1, fun f hf => by have := h2 f hf; omega, h3⟩
+
+/-- **B8, spline_filter1d.** For every line length (the kernel returns at once when `len ≤ 1`), every number
+of poles and every value — positive, zero, negative, larger than the line — of the horizon
+`max = (int)ceil(log_tolerance / log|pole|)` of the truncated initial sum, every `line[stride·ll]` of the
+weight loop, of the initial causal sum (`ll < max` when `max < len`, else the mirrored sum with
+`line[stride·(len-1)]` and `ll ≤ len-2`), of the causal recursion (`ll`, `ll-1`, `1 ≤ ll < len`), of
+`line[stride·(len-1)]`, `line[stride·(len-2)]` and of the anticausal recursion (`ll+1`, `ll`,
+`len-2 ≥ ll ≥ 0`) has its axis coordinate `ll` in `[0, len)`. -/
+theorem C10_spline_filter1d_in_bounds (len : Int) (mxs : List Int) :
+    ∀ a ∈ splineAccesses len mxs, 0 ≤ a.i ∧ a.i < a.size :=
+  splineAccesses_ok len mxs
+
+/-- **B8, haar / ihaar.** For every row length `N1 ≥ 0`, odd lengths included: `haar` reads the columns `2x`,
+`2x+1` (`x < N1/2`), writes `low[x]` and `high[x] = buffer[N1/2 + x]` inside the buffer of `N1` elements
+(for odd `N1` the last buffer element is never written by the loop; it keeps the zero that
+`bufdata.resize(N1)` put there) and copies `buffer[x]` to column `x`, `x < N1`; both `!=` loops leave through
+their test. `ihaar`, for every column step `≥ 1`: the element offsets `x·step` (low) and
+`step·N1/2 + x·step` (high; for odd `step·N1` not a column of the row) are inside the extent
+`(N1-1)·step + 1` of the row, `buffer[2x]`, `buffer[2x+1]` inside the buffer. -/
+theorem C10_haar_in_bounds (n1 : Int) (h : 0 ≤ n1) :
+    (∀ a ∈ haarAccesses n1, 0 ≤ a.i ∧ a.i < a.size) ∧ haarDone n1 = true ∧
+    ∀ step : Int, 1 ≤ step → ∀ a ∈ ihaarAccesses n1 step, 0 ≤ a.i ∧ a.i < a.size :=
+  ⟨haarAccesses_ok n1 h, haarDone_ok n1 h, fun step hs => ihaarAccesses_ok n1 step h hs⟩
+
+/-- **B8, wavelet / iwavelet (daubechies, idaubechies).** For every row length `N1 ≥ 0` (odd included) and
+every number of coefficients `ncoeffs ≥ 0`: `_access(data, N, p, step)` dereferences only `0 ≤ p < N`
+(it returns 0 otherwise), so every column read by `wavelet` (`p = 2x+ci`) is in `[0,N1)`; `coeffs[ci]`,
+`coeffs[ncoeffs-ci-1]` are inside the coefficient array; `low[x]`, `high[x] = buffer[N1/2+x]`, `x < N1/2`,
+and the copy loop stay inside the buffer of `N1` elements resp. the row. For `iwavelet` and every column
+step `≥ 1`: `low[xmap·step]`, `high[xmap·step]` with `high = data + step·N1/2` and `0 ≤ xmap < N1/2` are
+inside the extent of the row, `buffer[x]`, `x < N1`, inside the buffer. -/
+theorem C10_wavelet_in_bounds (n1 nc : Int) (h : 0 ≤ n1) (hc : 0 ≤ nc) :
+    (∀ a ∈ waveletAccesses n1 nc, 0 ≤ a.i ∧ a.i < a.size) ∧ waveletDone n1 nc = true ∧
+    ∀ step : Int, 1 ≤ step → ∀ a ∈ iwaveletAccesses n1 nc step, 0 ≤ a.i ∧ a.i < a.size :=
+  ⟨waveletAccesses_ok n1 nc h hc, waveletDone_ok n1 nc h hc,
+    fun step hs => iwaveletAccesses_ok n1 nc step h hc hs⟩
+
+/-- **B8, integral (SURF integral image).** For every `N0 × N1 ≥ 0` (behind `if (N0 == 0 || N1 == 0) return;`):
+the recurrence reads `[i-1][j]`, `[i][j-1]`, `[i-1][j-1]` only for `i, j ≥ 1`, the first row only `[0][j-1]`,
+`j ≥ 1`, the first column only `[i-1][0]`, `i ≥ 1`: every row index is in `[0,N0)`, every column index in
+`[0,N1)`, and the `j != N1`, `i != N0` loops starting at 1 leave through their test. -/
+theorem C10_integral_in_bounds (n0 n1 : Int) (h0 : 0 ≤ n0) (h1 : 0 ≤ n1) :
+    (∀ a ∈ integralAccesses n0 n1, 0 ≤ a.i ∧ a.i < a.size) ∧ integralDone n0 n1 = true :=
+  ⟨integralAccesses_ok n0 n1 h0 h1, integralDone_ok n0 n1 h0 h1⟩
+
+/-- **B8, Graham scan.** For every number of points `N` and every outcome of the `isLeft(..) >= 0` tests
+(two arbitrary oracles, one per scan; a pair `(i,h)` is tested at most once per scan): every `P[h-2]`,
+`P[h-1]`, `P[i]`, `std::swap(P[h],P[i])` of both `inPlaceScan`s — the second on `P + h - 2` with `N - h + 2`
+points, where `2 ≤ h ≤ N` — every `swap(P[i],P[i+1])`, `i < h-1`, and every `Pv[i]`, `i <` the returned hull
+size, of the caller is inside the vector of `N` points; the returned size is in `[0, N]`; the `i != h-1`
+loop leaves through its test. -/
+theorem C10_graham_in_bounds (cmp1 cmp2 : Nat → Nat → Bool) (n : Nat) :
+    (∀ a ∈ (grahamRun cmp1 cmp2 n).1, 0 ≤ a.i ∧ a.i < a.size) ∧
+    0 ≤ (grahamRun cmp1 cmp2 n).2.1 ∧ (grahamRun cmp1 cmp2 n).2.1 ≤ n ∧
+    (grahamRun cmp1 cmp2 n).2.2 = true :=
+  grahamRun_ok cmp1 cmp2 n
+
+/-- **B8, a line of an n-D array.** `spline_filter1d` works on `line = &*iter` at the positions `p` whose
+coordinate along `axis` is 0 and dereferences `line[stride(axis)·ll]`; `haar` / `wavelet` work on
+`data = array.data(y)` (position `(y, 0)`, `axis = 1`) and dereference `data[step·x]`. For every rank, shape,
+integer element strides (any layout), position `p` inside the array with `p[axis] = 0` and every axis
+coordinate `0 ≤ ll < shape[axis]` — which is what `C10_spline_filter1d_in_bounds`, `C10_haar_in_bounds` and
+`C10_wavelet_in_bounds` establish — the address `Σ stride·p + stride(axis)·ll` is the address of the position
+`p` with its `axis` coordinate set to `ll`, which is inside the array. -/
+theorem C10_line_address (shape : List Nat) (strides p : List Int) (axis : Nat) (ll : Int)
+    (hp : inside shape p = true) (hs : strides.length = shape.length) (ha : axis < shape.length)
+    (h0 : p.getD axis 0 = 0) (hl0 : 0 ≤ ll) (hl1 : ll < ((shape.getD axis 0 : Nat) : Int)) :
+    inside shape (p.set axis ll) = true ∧
+    dot strides p + strides.getD axis 0 * ll = dot strides (p.set axis ll) :=
+  line_address shape strides p axis ll hp hs ha h0 hl0 hl1
+
+/-! non-vacuity (B8) -/
+example : inside [3, 4] [2, 0] = true ∧ dot [4, 1] [2, 0] + ([4, 1] : List Int).getD 1 0 * 3 = 11 ∧
+    inside [3, 4] ([2, 0].set 1 3) = true := by decide
+example : zsAccesses [4, 5] (cStrides [4, 5]) 3 [-1, 3] =
+    [8, 9, 8, 7, 3, 4, 3, 2, 8, 9, 8, 7, 13, 14, 13, 12] := by decide
+example : zsOdo 3 [5, 1] 7 = ([1, 3], 8) ∧ zsOdo 3 [5, 1] 16 = ([0, 0], 0) := by decide
+example : zsStarts .reflect 3 [4, 5] [0, 4] = some [-1, 3] ∧ zsStarts .constant 3 [4, 5] [-1, 4] = none ∧
+    zsFold 5 (-3) = 3 ∧ zsFold 5 6 = 2 ∧ zsFold 1 9 = 0 := by decide
+example : (splineAccesses 5 [3, 40]).length = 61 ∧ allOk (splineAccesses 5 [3, 40]) = true ∧
+    splineAccesses 1 [3] = [] := by decide
+example : (haarAccesses 5).length = 18 ∧ (waveletAccesses 5 4).length = 37 ∧
+    (iwaveletAccesses 5 4 3).length = 53 ∧ allOk (iwaveletAccesses 5 4 3) = true ∧
+    (integralAccesses 3 4).length = 68 ∧ allOk (ihaarAccesses 5 3) = true := by decide
+example : (grahamRun (fun _ _ => true) (fun i _ => i % 2 == 0) 6).2.1 = 3 ∧
+    (grahamRun (fun _ _ => true) (fun i _ => i % 2 == 0) 6).1.length = 52 := by decide
+
+/-! ## B5 — `thin` -/
+
+/-- **B5, thin.** On a `rows × cols` C-contiguous image (`cols ≥ 1`) with no set pixel on its one-pixel frame
+(the image `thin.py` builds: the bounding box of the input surrounded by a frame of zeros), a whole
+`fast_hitmiss` sweep — `match(first, elem)` at every flat index for all eight structuring elements, whose
+offsets `d0·cols + d1` come from the delta tables extracted from `_thin.cpp` — dereferences `*array`
+at indices `< rows·cols` and the six neighbours `*(array + offset[j])` only of set pixels, all of them
+inside the buffer; and the update after each element (`if (*pb && *pa) *pa = false`) only clears pixels,
+whatever the buffer holds, so the frame stays clear and the size unchanged: the statement holds again for
+the next element and the next iteration, for every `max_iter`. -/
+theorem C10_thin_in_bounds (rows cols : Int) (img : List Bool) (hc : 0 < cols)
+    (hlen : (img.length : Int) = rows * cols) (hf : thinFrameClear rows cols img = true) :
+    (∀ a ∈ thinSweep rows cols img, 0 ≤ a.i ∧ a.i < a.size) ∧
+    ∀ buf : List Bool, buf.length = img.length →
+      thinFrameClear rows cols (thinUpdate img buf) = true ∧
+      ((thinUpdate img buf).length : Int) = rows * cols :=
+  ⟨thinSweep_ok rows cols img hc hlen hf, fun buf hb =>
+    ⟨thinUpdate_frameClear rows cols img buf hf, by rw [thinUpdate_length img buf hb]; exact hlen⟩⟩
+
+/-! non-vacuity (B5): a framed 3x3 image; a set pixel on the frame of a 2x2 image leaves the buffer -/
+example : thinFrameClear 3 3 [false, false, false, false, true, false, false, false, false] = true ∧
+    (thinSweep 3 3 [false, false, false, false, true, false, false, false, false]).length = 57 ∧
+    thinFrameClear 2 2 [true, false, false, false] = false ∧
+    allOk (thinSweep 2 2 [true, false, false, false]) = false := by decide
+
+/-! ## B4 — `cwatershed` -/
+
+/-- **B4, cwatershed.** For every rank and shape, every flat position `pos < N` taken from the queue with a
+margin that is a lower bound of its true distance to the border (`margin_of` itself at the marker scan;
+the bound is re-established for every pushed neighbour and for the running margin — last three conjuncts),
+and every offset `o` of the neighbourhood (entry `delta = pos_to_flat(o)`, `step` = Chebyshev length):
+whenever the bounds decision of the inner loop lets the neighbour through (`nmargin = margin - step ≥ 0`,
+or the recomputed `margin_of(position + o) ≥ 0`), `npos = pos + delta` is in `[0, N)` — so `status[npos]`,
+`res[npos]`, `lines[npos]`, `array[npos]` are inside their buffers. From C04-T1 (margins) and C04-T2 (flat
+deltas). -/
+theorem C10_cwatershed_in_bounds (s : List Nat) (pos : Nat) (m : Int) (o : List Int) (nm m' : Int)
+    (hi : pos < shapeSize s) (ho : o.length = s.length) (hm : m ≤ C04.marginOf s (unravelI s pos))
+    (h : C04.nbCheck s pos m ⟨C04.posToFlat s o, C04.chebStep o, o⟩ = some (nm, m')) :
+    (0 ≤ (pos : Int) + C04.posToFlat s o ∧ (pos : Int) + C04.posToFlat s o < (shapeSize s : Int)) ∧
+    nm ≤ C04.marginOf s (addPos (unravelI s pos) o) ∧ m ≤ m' ∧ m' ≤ C04.marginOf s (unravelI s pos) :=
+  cw_npos_range s pos m o nm m' hi ho hm h
+
+/-- **B4, cwatershed, the table the driver prints.** For every shape and every list of offsets of the rank
+of the image, all neighbour accesses enumerated by `cwAccesses` (every position, every offset, margin test
+started from the exact margin) are in `[0, N)`. -/
+theorem C10_cwatershed_table_ok (shape : List Nat) (offs : List (List Int))
+    (ho : ∀ o ∈ offs, o.length = shape.length) :
+    ∀ a ∈ cwAccesses shape offs, 0 ≤ a.i ∧ a.i < a.size :=
+  cwAccesses_ok shape offs ho
+
+example : (cwAccesses [2, 3] [[0, 1], [1, 0], [-1, -1]]).length = 9 ∧
+    allOk (cwAccesses [2, 3] [[0, 1], [1, 0], [-1, -1]]) = true := by decide
